@@ -151,6 +151,10 @@ func Value(r *kit.Rng, s *schema.Node, o GenOpts) string {
 			// many significant digits (all exactly representable with 2 fraction digits as float64)
 			return r.Pick([]string{"1234.50", "123456789012.50", "16777217.25", "-99999999.75", "4503599627370.50", "0.25", "-0.50", "33554433.00"})
 		}
+		if o.Nasty && r.Chance(1, 8) {
+			// magnitudes around and beyond what a 64-bit integer holds, whole numbers, negative zero's neighbours
+			return r.Pick([]string{"9500000000000000000.00", "-9500000000000000000.00", "9223372036854775808.00", "9300000000000000000.00", "100.00", "-30000000000.00", "0.00", "-0.01", "0.01", "1000000.00"})
+		}
 		return fmt.Sprintf("%d.%02d", r.Range(1, 99), r.Intn(100))
 	}
 	return "x"
